@@ -9,6 +9,11 @@ package main
 // UID EXPUNGE).  Judged in Lean (dialect judge-c16-wire = the RFC 3501 reference selection of
 // Spec/SeqSetSpec.lean evaluated on the view the session had).
 //
+// Kinds STALEFETCH, STALEUIDFETCH, STALESTORE, STALEUIDSTORE: the session's updates are withheld
+// (Server.VerifHold) while a second session expunges some messages of the mailbox, so the
+// session's view still holds messages that no longer exist; the set must be read against that
+// view ("in the session's current view"), judged by judge-c16-wire-stale.
+//
 //	vh oracle c16wire -seed S -out result.json -replaydir DIR [-n N]
 //	vh oracle c16wire -replay FILE        (lines `case <KIND> <size> <set text>`)
 
@@ -38,7 +43,7 @@ var c16WireKinds = []string{"FETCH", "UIDFETCH", "SEARCH", "SEARCHUID", "UIDSEAR
 
 func c16KindUID(kind string) bool {
 	switch kind {
-	case "UIDFETCH", "SEARCHUID", "UIDSEARCHUID", "UIDSTORE", "UIDCOPY", "UIDMOVE", "UIDEXPUNGE":
+	case "UIDFETCH", "SEARCHUID", "UIDSEARCHUID", "UIDSTORE", "UIDCOPY", "UIDMOVE", "UIDEXPUNGE", "STALEUIDFETCH", "STALEUIDSTORE":
 		return true
 	}
 	return false
@@ -51,10 +56,31 @@ type c16Msg struct {
 }
 
 type c16Wire struct {
-	sys   *Sys
-	c     *Client
-	built map[int]bool
-	dstN  int
+	sys     *Sys
+	c       *Client
+	stateID int64   // the session state of c (for VerifHold)
+	w2      *Client // second session: expunges "elsewhere"
+	built   map[int]bool
+	dstN    int
+}
+
+var c16StaleKinds = []string{"STALEFETCH", "STALEUIDFETCH", "STALESTORE", "STALEUIDSTORE"}
+
+func c16IsStale(kind string) bool { return strings.HasPrefix(kind, "STALE") }
+
+// which sequence numbers the second session expunges in a template of the given size
+func c16StaleDrop(size int) []int {
+	switch size {
+	case 1:
+		return []int{1}
+	case 2:
+		return []int{1}
+	case 5:
+		return []int{2, 5}
+	case 40:
+		return []int{2, 20, 40}
+	}
+	return nil
 }
 
 // extra messages appended and expunged again so that the template's UIDs have gaps
@@ -82,10 +108,49 @@ func (w *c16Wire) connect() error {
 	if err != nil {
 		return err
 	}
+	before := map[int64]bool{}
+	for _, st := range w.sys.Server.VerifStates(w.sys.UserID) {
+		before[int64(st.ID)] = true
+	}
 	if rep := c.Login("user"); rep.Status != "OK" {
 		return fmt.Errorf("login: %v %s", rep.Err, rep.Tagged)
 	}
+	w.stateID = 0
+	for _, st := range w.sys.Server.VerifStates(w.sys.UserID) {
+		if !before[int64(st.ID)] {
+			w.stateID = int64(st.ID)
+		}
+	}
 	w.c = c
+	return nil
+}
+
+// expungeElsewhere: a second session removes the given sequence numbers of the mailbox
+func (w *c16Wire) expungeElsewhere(name string, seqs []int) error {
+	if w.w2 == nil {
+		c, err := w.sys.Dial("x")
+		if err != nil {
+			return err
+		}
+		if rep := c.Login("user"); rep.Status != "OK" {
+			return fmt.Errorf("login (second session): %v %s", rep.Err, rep.Tagged)
+		}
+		w.w2 = c
+	}
+	if rep := w.w2.Cmd("SELECT " + name); rep.Status != "OK" {
+		return fmt.Errorf("second session select: %s %v", rep.Tagged, rep.Err)
+	}
+	p := make([]string, len(seqs))
+	for i, s := range seqs {
+		p[i] = strconv.Itoa(s)
+	}
+	if rep := w.w2.Cmd("STORE " + strings.Join(p, ",") + " +FLAGS.SILENT (\\Deleted)"); rep.Status != "OK" {
+		return fmt.Errorf("second session store: %s %v", rep.Tagged, rep.Err)
+	}
+	if rep := w.w2.Cmd("EXPUNGE"); rep.Status != "OK" {
+		return fmt.Errorf("second session expunge: %s %v", rep.Tagged, rep.Err)
+	}
+	w.w2.Cmd("UNSELECT")
 	return nil
 }
 
@@ -173,6 +238,7 @@ type c16WireObs struct {
 	uids   []uint32 // the view the command ran against
 	status string   // OK NO BAD LOST PANIC
 	seqs   []int    // sequence numbers (in that view) of the messages the command worked on
+	gone   []int    // stale kinds: sequence numbers (in that view) expunged by the other session
 	note   string
 }
 
@@ -213,7 +279,65 @@ func (w *c16Wire) run(kind string, size int, text string) (obs c16WireObs, err e
 		}
 	}
 	var rep Reply
+	if c16IsStale(kind) {
+		if w.stateID == 0 {
+			return obs, fmt.Errorf("no state id for the session (VerifStates)")
+		}
+		obs.gone = c16StaleDrop(size)
+		w.sys.Server.VerifHold(w.stateID)
+		defer func() {
+			w.sys.Server.VerifRelease(w.stateID, -1, true)
+			w.built[size] = false
+			if w.c != nil {
+				w.c.Cmd("NOOP")
+				w.c.Cmd("UNSELECT")
+			}
+		}()
+		if err = w.expungeElsewhere(name, obs.gone); err != nil {
+			return obs, err
+		}
+	}
 	switch kind {
+	case "STALEFETCH", "STALEUIDFETCH":
+		cmd := "FETCH " + text + " (UID)"
+		if kind == "STALEUIDFETCH" {
+			cmd = "UID FETCH " + text + " (FLAGS)"
+		}
+		rep = w.c.Cmd(cmd)
+		for _, u := range rep.Untagged {
+			if m := c16ReFetch.FindStringSubmatch(u); m != nil {
+				s, _ := strconv.Atoi(m[1])
+				uid := uint32(0)
+				if y := c16ReUID.FindStringSubmatch(m[2]); y != nil {
+					v, _ := strconv.ParseUint(y[1], 10, 32)
+					uid = uint32(v)
+				}
+				if s < 1 || s > len(view) || view[s-1].uid != uid {
+					s = 0
+				}
+				obs.seqs = append(obs.seqs, s)
+			}
+		}
+	case "STALESTORE", "STALEUIDSTORE":
+		// not silent: the untagged FETCH responses tell which messages the STORE worked on
+		cmd := "STORE " + text + " +FLAGS (\\Flagged)"
+		if kind == "STALEUIDSTORE" {
+			cmd = "UID " + cmd
+		}
+		rep = w.c.Cmd(cmd)
+		for _, u := range rep.Untagged {
+			if m := c16ReFetch.FindStringSubmatch(u); m != nil {
+				s, _ := strconv.Atoi(m[1])
+				if s < 1 || s > len(view) {
+					s = 0
+				} else if y := c16ReUID.FindStringSubmatch(m[2]); y != nil {
+					if v, _ := strconv.ParseUint(y[1], 10, 32); view[s-1].uid != uint32(v) {
+						s = 0
+					}
+				}
+				obs.seqs = append(obs.seqs, s)
+			}
+		}
 	case "FETCH", "UIDFETCH":
 		cmd := "FETCH " + text + " (UID)"
 		if kind == "UIDFETCH" {
@@ -336,7 +460,9 @@ func (w *c16Wire) run(kind string, size int, text string) (obs c16WireObs, err e
 		w.built[size] = false
 		return obs, nil
 	}
-	w.c.Cmd("UNSELECT")
+	if !c16IsStale(kind) {
+		w.c.Cmd("UNSELECT")
+	}
 	return obs, nil
 }
 
@@ -367,10 +493,19 @@ func c16HexText(text string) string {
 }
 
 func c16JudgeLine(kind string, obs c16WireObs, text string) string {
+	if c16IsStale(kind) {
+		g := make([]string, len(obs.gone))
+		for i, x := range obs.gone {
+			g[i] = strconv.Itoa(x)
+		}
+		return fmt.Sprintf("judge-c16-wire-stale %s %s %s %s => %s %s", kind, c16ShowUids(obs.uids), strings.Join(g, ","), c16HexText(text), obs.status, c16CanonSeqs(kind, obs.seqs))
+	}
 	return fmt.Sprintf("judge-c16-wire %s %s %s => %s %s", kind, c16ShowUids(obs.uids), c16HexText(text), obs.status, c16CanonSeqs(kind, obs.seqs))
 }
 
 func c16ModelLine(kind string, obs c16WireObs, text string) string {
+	// the snapshot of a held session is the view it had: the model resolves against that view
+	kind = strings.TrimPrefix(kind, "STALE")
 	return fmt.Sprintf("c16-wire-model %s %s %s", kind, c16ShowUids(obs.uids), c16HexText(text))
 }
 
@@ -454,9 +589,19 @@ func runC16WireOracle(args []string) int {
 				c16WireCase{k, 1, "4294967296"}, c16WireCase{k, 2, "3"}, c16WireCase{k, 0, "*"}, c16WireCase{k, 0, "1"}, c16WireCase{k, 0, "1:*"},
 				c16WireCase{k, 2, "1,1"}, c16WireCase{k, 5, "1:3,2"})
 		}
+		for _, k := range c16StaleKinds {
+			cases = append(cases, c16WireCase{k, 5, "1:5"}, c16WireCase{k, 5, "5"}, c16WireCase{k, 5, "3,6"}, c16WireCase{k, 5, "4:*"},
+				c16WireCase{k, 2, "2"}, c16WireCase{k, 1, "1"}, c16WireCase{k, 40, "39:*"})
+		}
 		for len(cases) < *n {
 			size := Pick(r, c16ResolveSizes)
 			kind := Pick(r, c16WireKinds)
+			if r.Chance(1, 6) { // a view that still holds messages expunged elsewhere
+				kind = Pick(r, c16StaleKinds)
+				if size == 0 {
+					size = 5
+				}
+			}
 			// the UIDs a freshly built template has
 			total, drop := c16TemplatePlan(size)
 			dropped := map[int]bool{}
